@@ -8,6 +8,9 @@ NA_ALL = {
  'C15': 'Circuit shape / pinned Groth16 keys: needs Groth16 proving and pairing evaluation on concrete keys (whole-program runs through ark-groth16, no symbolic content) and a dataflow statement about arkworks\' synthesiser; no solver verdict over the real code is within reach (DESIGN §4).',
 }
 CHECKS = {
+ 'C06': dict(level='proof', technique='path enumeration of every constructor on the MIR with validity provenance tracking (raw arkworks point constructors are the only invalid sources); decode on-curve certificate; ground SMT for the constants and group order',
+      text='Every public constructor of the arkworks build (zero, generator, default, from_random_bytes for all slice lengths 0..=80, the two samplers, into_affine, normalize_batch, batch_convert_to_mul_base, cofactor methods, all deserialisers) is executed on the MIR; on every path each returned curve point is shown to stem from a validated source (decode, checked constant, operations on valid points), never from a raw arkworks point constructor; generator = decode(8), identity, [r]B = identity and the on-curve property of decoded points are discharged by z3.',
+      note='Trusted: group operations/conversions preserve validity, Elligator image, Decaf theorem; arkworks as delegated. Bounds: lengths 0..=80, <= 2 sampler rejections, batches <= 3.', ref='§3 C06'),
  'C05': dict(level='proof', technique='symbolic execution of the MIR with branch merging over the free cyclic group (ladders: z3 LIA/BV over all limb values), free-abelian-group interpretation of the Mul forms and MSM stub, ground SMT chain for the group order',
       text='Both ladders of the minimal backend are executed on the MIR for slices of 1..=5 symbolic limbs (all 2^320 values; vartime branches merged) and the accumulated multiple is shown equal to sum limb_i 2^(64 i) by z3; every Mul/MulAssign impl, mul_bigint and the multiscalar stub (0..=3 pairs, unequal lengths) are shown to be k*P / the sum of products in the free abelian group; [r]GENERATOR = identity and GENERATOR != identity as a checked ground addition chain.',
       note='Trusted: ark-ec scalar multiplication for inner points, group axioms, r prime, C04 for each ladder step. Bounds: <= 5 limbs, <= 3 (5) MSM pairs.', ref='§3 C05'),
